@@ -42,6 +42,20 @@ class Square:
         return "Square()"
 
 
+class Demean:
+    """A filter that uses a statistic of the whole series (so it matters that it is applied member by member)."""
+
+    def __call__(self, x):
+        x = np.asarray(x, dtype=float)
+        return x - x.mean()
+
+    def __repr__(self):
+        return "Demean()"
+
+
+CUMSUM, SQUARE, DEMEAN = CumSum(), Square(), Demean()   # one function object per kind: shared by all coordinates that use it
+
+
 def ref_hp_trend(y, lam=1600.0):
     from scipy.linalg import solveh_banded
 
@@ -73,6 +87,8 @@ def apply_filter_ref(spec, x):
         return np.cumsum(x)
     if kind == "square":
         return x * x
+    if kind == "demean":
+        return x - x.mean()
     if kind == "hp_cycle":
         return x - ref_hp_trend(x)
     if kind == "log_hp":
